@@ -80,6 +80,23 @@ def lognormalFitComplete (xs : Array α) : FitRes α :=
   let ss := kahanSum (fun x => let z := log x - mu; z * z) xs
   .res .ok #[mu, sqrt (ss / ofInt ((xs.size : Int) - 1))]
 
+/-- `esl_lognormal_FitCountHistogram(c, n)` with `c = c[0..n]` → `(mu, sigma)` -/
+def lognormalFitCountHistogram (c : Array α) : FitRes α :=
+  let bad : FitRes α := .res .einval #[-(one / zero), -(one / zero)]
+  if !(eqb (c.getD 0 zero) zero) then bad else
+  let idx := (List.range c.size).tail
+  -- first pass (stops with eslEINVAL at the first negative count)
+  if idx.any (fun i => !(gtb (c.getD i zero) zero) && ltb (c.getD i zero) zero) then bad else
+  let (mu, ntot) := idx.foldl (fun (a : α × α) i =>
+      let ci := c.getD i zero
+      if gtb ci zero then (a.1 + ci * log (ofInt i), a.2 + ci) else a) (zero, zero)
+  if leb ntot zero then bad else
+  let mu := mu / ntot
+  let sigma := idx.foldl (fun (acc : α) i =>
+      let ci := c.getD i zero
+      if gtb ci zero then let z := log (ofInt i) - mu; acc + ci * z * z else acc) zero
+  .res .ok #[mu, sqrt (sigma / (ntot - one))]
+
 /-! ## Gumbel -/
 
 /-- `esl_stats_DMean()` → `(mean, variance)` -/
